@@ -101,7 +101,7 @@ Qed.
 
 Lemma KS_step s st : KS s -> KS (exec1 prepaired s st).
 Proof.
-  intros K. destruct st as [n|n|n|k|k| | |sp]; unfold exec1.
+  intros K. destruct st as [n|n|n|k|k| | |sp|n]; unfold exec1.
   - (* Start *)
     destruct ((last s <? n) && (n <=? max64)) eqn:E; [|exact K].
     apply andb_prop in E. destruct E as [E1 E2].
@@ -230,6 +230,14 @@ Proof.
     + intros ? [].
     + exact (k_ok s K).
     + intros ? [].
+  - (* WFail: the publication disappears *)
+    destruct (mem n (inflW s)) eqn:E; [|exact K].
+    constructor; cbn [files completed last inflW inflU pend_rm written];
+      try (exact (k_files s K) || exact (k_newest s K) || exact (k_inflU s K) || exact (k_rm s K) || exact (k_compU s K) || exact (k_comp_last s K) || exact (k_U_last s K) || exact (k_ok s K)).
+    + intros c Hc Hin. apply In_remove_id in Hin. exact (k_compW s K c Hc (proj1 Hin)).
+    + intros m Hm. apply In_remove_id in Hm. exact (k_W_last s K _ (proj1 Hm)).
+    + intros m Hm. apply In_remove_id in Hm. exact (k_disj s K _ (proj1 Hm)).
+    + intros m Hm. apply In_remove_id in Hm. exact (k_okW s K _ (proj1 Hm)).
 Qed.
 
 Lemma KS_exec l : forall s, KS s -> KS (exec prepaired s l).
@@ -342,7 +350,7 @@ Qed.
 
 Lemma NS_step s st : KS s -> NS s -> NS (exec1 prepaired s st).
 Proof.
-  intros K Nn. destruct st as [n|n|n|k|k| | |sp]; unfold exec1.
+  intros K Nn. destruct st as [n|n|n|k|k| | |sp|n]; unfold exec1.
   - (* Start *)
     destruct ((last s <? n) && (n <=? max64)) eqn:E; [|exact Nn].
     apply andb_prop in E. destruct E as [E1 E2].
@@ -481,6 +489,12 @@ Proof.
     + intros m [].
     + constructor.
     + intros x0 Hx. unfold notif_ids in Hx. cbn [nwait nhold received] in Hx. destruct Hx as [[]|[Hx|[]]]. discriminate.
+  - (* WFail *)
+    destruct (mem n (inflW s)) eqn:E; [|exact Nn].
+    destruct Nn as [L S RL H F D IDS].
+    constructor; cbn [files completed last inflW inflU pend_rm nwait nhold written received]; try assumption.
+    intros x Hx. destruct (IDS x Hx) as (A1 & A2 & A3 & A4). repeat split; try assumption.
+    intros Hin. apply In_remove_id in Hin. exact (A2 (proj1 Hin)).
 Qed.
 
 Lemma NS_exec l : forall s, KS s -> NS s -> NS (exec prepaired s l).
@@ -613,7 +627,7 @@ Definition cur_id (s : pstate) : N := list_max (completed s).
 Lemma cur_monotone_step s st : KS s ->
   match st with Crash | Rewind _ => True | _ => cur_id s <= cur_id (exec1 prepaired s st) end.
 Proof.
-  intros K. destruct st as [n|n|n|k|k| | |sp]; try exact I; unfold exec1, cur_id.
+  intros K. destruct st as [n|n|n|k|k| | |sp|n]; try exact I; unfold exec1, cur_id.
   - destruct ((last s <? n) && (n <=? max64)); cbn [completed]; lia.
   - destruct (mem n (inflW s)); cbn [completed]; lia.
   - destruct (mem n (inflU s)) eqn:E; [|lia]. apply mem_In in E.
@@ -627,6 +641,7 @@ Proof.
   - destruct (nth_error (pend_rm s) k); cbn [completed]; lia.
   - destruct (nhold s); [lia|]. destruct (nth_error (nwait s) k); cbn [completed]; lia.
   - destruct (nhold s); cbn [completed]; lia.
+  - destruct (mem n (inflW s)); cbn [completed]; lia.
 Qed.
 
 Theorem current_never_goes_back base sched st :
@@ -652,3 +667,10 @@ Proof.
   - right. split; [discriminate|]. rewrite load_picks_max_lemma by (auto; discriminate).
     destruct (fault =? 0); [right|left]; reflexivity.
 Qed.
+
+(* a failed write changes nothing but the set of publications in flight *)
+Lemma write_failure_inert_lemma q s n :
+  let s' := exec1 q s (WFail n) in
+  files s' = files s /\ completed s' = completed s /\ pend_rm s' = pend_rm s /\ nwait s' = nwait s /\
+  nhold s' = nhold s /\ received s' = received s /\ written s' = written s /\ last s' = last s.
+Proof. unfold exec1. destruct (mem n (inflW s)); cbn; repeat split. Qed.
